@@ -17,16 +17,20 @@ GenObjType  == <<"Base", "Derived">>
 GenSlotTypeBBD  == <<"Base", "Base", "Derived">>
 GenSlotTypeBDD  == <<"Base", "Derived", "Derived">>
 GenSlotTypeBBDD == <<"Base", "Base", "Derived", "Derived">>
+GenSlotTypeBB   == <<"Base", "Base">>
+GenObjTypeDD    == <<"Derived", "Derived">>      \* chain universe: both objects own a member handle
+MembersNone     == {}
+MembersDerived  == {"Derived"}
 GenPolicy   == [mc |-> IOEnv.RC_MC, ma |-> IOEnv.RC_MA, sm |-> IOEnv.RC_SM, cmc |-> IOEnv.RC_CMC, cma |-> IOEnv.RC_CMA]
 ASSUME \A k \in DOMAIN GenPolicy : GenPolicy[k] \in Outs(k)
 
-Abs  == [st |-> st, count |-> count, creator |-> creator, explicit |-> explicit, h |-> h]
-AbsN == [st |-> st', count |-> count', creator |-> creator', explicit |-> explicit', h |-> h']
+Abs  == [st |-> st, count |-> count, creator |-> creator, explicit |-> explicit, h |-> h, m |-> m]
+AbsN == [st |-> st', count |-> count', creator |-> creator', explicit |-> explicit', h |-> h', m |-> m']
 
 GInit == Init /\ CSVWrite("%1$s", <<ToJson([init |-> Abs])>>, IOEnv.RC_EDGES)
 GNext == Next /\ CSVWrite("%1$s", <<ToJson([src |-> Abs, step |-> last', dst |-> AbsN])>>, IOEnv.RC_EDGES)
 GSpec == GInit /\ [][GNext]_vars
-GView == <<st, count, creator, explicit, h>>
+GView == <<st, count, creator, explicit, h, m>>
 \* `last` agrees with the state it was computed for (action form: the VIEW hides `last`)
-GLastAgrees == [][last'.exp.cnt = Cnt(st', count') /\ last'.exp.ptr = h' /\ last'.exp.same = Same(h')]_vars
+GLastAgrees == [][last'.exp.cnt = Cnt(st', count') /\ last'.exp.ptr = h' /\ last'.exp.same = Same(h') /\ last'.exp.mem = m']_vars
 ===============================================================================
